@@ -64,15 +64,15 @@ def _thms(ns, names):
     return ["Flurry.%s.%s" % (ns, n) for n in names.split()]
 
 THEOREMS["C02"] = [("Flurry.Props.C02", _thms("C02", "step_refines len_spec seq_refines seq_refines_from first_key_kept try_insert_present"))]
-THEOREMS["C05"] = [("Flurry.Props.C05BinGN", ["Flurry.Proto.BinGN." + n for n in "quiescent_no_half_resize quiescent_unlocked quiescent_keys_distinct quiescent_entries_nodup quiescent_entry_in_own_cell quiescent_iter_agrees quiescent_iter_linearized quiescent_len quiescent_live_tree_eq_list quiescent_live_not_moved reachable_iter_agrees resize_at_work".split()]), ("Flurry.Props.C05BinG", ["Flurry.Proto.BinG." + n for n in "quiescent_no_half_resize resize_committed_or_at_work quiescent_live_not_moved quiescent_unlocked quiescent_keys_distinct quiescent_entries_nodup quiescent_entry_in_own_cell quiescent_iter_agrees quiescent_iter_linearized quiescent_len quiescent_live_tree_eq_list reachable_iter_agrees".split()]), ("Flurry.Props.C05TableG", ["Flurry.Proto.TableG." + n for n in "tableG_quiescent_iter_agrees tableG_quiescent_keys_distinct tableG_quiescent_entries_nodup tableG_quiescent_len tableG_quiescent_entry_in_own_cell tableG_stored_key_in_own_lineage tableG_quiescent_iter_is_linearized_map tableG_quiescent_no_half_resize tableG_quiescent_unlocked tableG_quiescent_tree_eq_list tableG_node_key_in_own_lineage tableG_reachable_iter_agrees tableG_lineage_quiescent".split()]), ("Flurry.Proto.Count", ["Flurry.Proto.Count.quiescent_count_eq_size", "Flurry.Proto.Count.count_lags_by_owed", "Flurry.Proto.Count.ret_only_when_settled", "Flurry.Proto.Count.reachable_inv"]), ("Flurry.Props.C01BinG", ["Flurry.Proto.BinG.quiescent_tree_eq_list", "Flurry.Proto.BinG.binG_inv"]), ("Flurry.Props.C01BinK", ["Flurry.Proto.BinK.quiescent_tree_eq_list", "Flurry.Proto.BinK.binK_linearizable_quiescent"]), ("Flurry.Props.C05", _thms("C05", "iter_agrees iter_agrees_abs wf_reachable wf_reachable_new wf_reachable_collect wf_reachable_clone wf_unfold"))]
+THEOREMS["C05"] = [("Flurry.Props.C05TableGN", ["Flurry.Proto.TableGNL." + n for n in "tableGN_quiescent_iter_agrees tableGN_quiescent_keys_distinct tableGN_quiescent_entries_nodup tableGN_quiescent_len tableGN_quiescent_no_half_resize tableGN_quiescent_unlocked tableGN_quiescent_tree_eq_list tableGN_quiescent_entry_in_own_bin tableGN_quiescent_cell_keys tableGN_reachable_iter_agrees tableGN_quiescent_iter_is_linearized_map".split()]), ("Flurry.Props.C05BinGN", ["Flurry.Proto.BinGN." + n for n in "quiescent_no_half_resize quiescent_unlocked quiescent_keys_distinct quiescent_entries_nodup quiescent_entry_in_own_cell quiescent_iter_agrees quiescent_iter_linearized quiescent_len quiescent_live_tree_eq_list quiescent_live_not_moved reachable_iter_agrees resize_at_work".split()]), ("Flurry.Props.C05BinG", ["Flurry.Proto.BinG." + n for n in "quiescent_no_half_resize resize_committed_or_at_work quiescent_live_not_moved quiescent_unlocked quiescent_keys_distinct quiescent_entries_nodup quiescent_entry_in_own_cell quiescent_iter_agrees quiescent_iter_linearized quiescent_len quiescent_live_tree_eq_list reachable_iter_agrees".split()]), ("Flurry.Props.C05TableG", ["Flurry.Proto.TableG." + n for n in "tableG_quiescent_iter_agrees tableG_quiescent_keys_distinct tableG_quiescent_entries_nodup tableG_quiescent_len tableG_quiescent_entry_in_own_cell tableG_stored_key_in_own_lineage tableG_quiescent_iter_is_linearized_map tableG_quiescent_no_half_resize tableG_quiescent_unlocked tableG_quiescent_tree_eq_list tableG_node_key_in_own_lineage tableG_reachable_iter_agrees tableG_lineage_quiescent".split()]), ("Flurry.Proto.Count", ["Flurry.Proto.Count.quiescent_count_eq_size", "Flurry.Proto.Count.count_lags_by_owed", "Flurry.Proto.Count.ret_only_when_settled", "Flurry.Proto.Count.reachable_inv"]), ("Flurry.Props.C01BinG", ["Flurry.Proto.BinG.quiescent_tree_eq_list", "Flurry.Proto.BinG.binG_inv"]), ("Flurry.Props.C01BinK", ["Flurry.Proto.BinK.quiescent_tree_eq_list", "Flurry.Proto.BinK.binK_linearizable_quiescent"]), ("Flurry.Props.C05", _thms("C05", "iter_agrees iter_agrees_abs wf_reachable wf_reachable_new wf_reachable_collect wf_reachable_clone wf_unfold"))]
 THEOREMS["C13"] = [("Flurry.Props.C13BinR", ["Flurry.C13R." + n for n in "binR_linearizable_quiescent binR_linearizable spec_condRm condRm_removes_only_observed condRm_store_spec replaced_value_survives visit_load visit_drop visit_keep noCompare_not_linearizable noCompare_refutes".split()]), ("Flurry.Props.C13", _thms("C13", "retain_eq_filter retain_force_eq_filter retain_removes_only_rejected retain_capacity wrappers_delegate_by_name replace_node_keeps_its_condition"))]
 THEOREMS["C14"] = THEOREMS["C14"] + [("Flurry.Props.C14", _thms("C14", "removals_pass_no_hint removal_calls_present never_shrinks removal_never_grows threshold_three_quarters grow_only_when grow_only_when_ins grow_only_when_uninit no_growth_below_threshold no_growth_with_room no_growth_with_room_bins no_growth_with_room_hash reserve_threshold_room no_growth_after_reserve no_growth_after_reserve_bins table_len_pow2 reachable_never_shrinks reachable_removal_never_grows reachable_table_len_pow2"))]
 THEOREMS["C18"] = [("Flurry.Props.C18", _thms("C18", "cip_panic_unchanged cip_panics_iff cip_no_write_before_callback retain_panic_prefix retain_loop_append after_panic_continues cip_panic_absMap"))]
 THEOREMS["C03"] = [("Flurry.Props.C03BinNRRefine", ["Flurry.Props.C03BinNRRefine." + n for n in "refines_abstract_discipline abstract_image_safe pc_nodes_held_abstractly every_run_has_a_projection".split()]), ("Flurry.Props.C03Reclaim2", ["Flurry.C03Reclaim2." + n for n in "held_references_valid no_touch_after_free holders_are_awaited free_waits_for_holders waitFor_covers_holders retire_only_after_unlink late_thread_cannot_acquire walk_accepted walk_then_free".split()]), ("Flurry.Lemmas.BinNRRefineExamples", ["Flurry.Proto.BinNR.transfer2_refines", "Flurry.Proto.BinNR.remove_refines"]), ("Flurry.Props.C03BinNR", ["Flurry.Props.C03BinNR." + n for n in "no_touch_after_free touched_retired_awaits holders_are_awaited holders_not_freed unlink_before_retire retire_only_unreachable free_only_when_unheld freed_was_retired obligations_unlinked projects_to_BinN".split()]), ("Flurry.Lemmas.BinNRRuns", ["Flurry.Proto.BinNR.early_refutes", "Flurry.Proto.BinNR.early_retire_touches_freed"]), ("Flurry.Props.C09", ["Flurry.C09.all_public_guarded", "Flurry.C09.check_guard_unconditional", "Flurry.C09.no_foreign_use"]), ("Flurry.Props.C01Source", ["Flurry.C01Source.every_bin_lock_is_rechecked", "Flurry.C01Source.lock_sites_present", "Flurry.C01Source.clear_waits_for_commit"]), ("Flurry.Props.C10", ["Flurry.C10.fill_then_forward_then_retire"]), ("Flurry.Lemmas.BinXCExamples", ["Flurry.Proto.BinXC.retired_unreachable", "Flurry.Proto.BinXC.retired_dead", "Flurry.Proto.BinXC.noWait_retires_reachable"]), ("Flurry.Props.C03", _thms("C03", "held_references_valid no_touch_after_free free_waits_for_holders retire_only_after_unlink unlinked_not_acquirable unprotected_guard_is_unsafe publication_needs_guard"))]
 THEOREMS["C04"] = [("Flurry.Props.C03BinNRRefine", ["Flurry.Props.C03BinNRRefine.abstract_image_safe"]), ("Flurry.Props.C04BinNR", ["Flurry.Props.C04BinNR." + n for n in "freed_at_most_once freed_stays_freed freed_for_ever free_waits_for_guards freed_after_guards retired_eventually_freeable quiescent_freeable awaited_or_exited obligation_once retire_records_guards response_retires w0_stable".split()]), ("Flurry.Props.C03Reclaim2", ["Flurry.C03Reclaim2.freed_at_most_once", "Flurry.C03Reclaim2.freed_only_after_guards"]), ("Flurry.Props.C03BinNR", ["Flurry.Props.C03BinNR.free_only_when_unheld", "Flurry.Props.C03BinNR.freed_was_retired", "Flurry.Props.C03BinNR.unlink_before_retire"]), ("Flurry.Lemmas.BinXCExamples", ["Flurry.Proto.BinXC.retired_dead", "Flurry.Proto.BinXC.binxc_linearizable_quiescent"]), ("Flurry.Props.C04", _thms("C04", "freed_at_most_once freed_only_after_guards freed_was_retired retired_is_eventually_freed refused_insert_changes_nothing"))]
 THEOREMS["C07"] = [("Flurry.Props.C07TableNI", ["Flurry.Proto.TableNI." + n for n in "tableNI_untouched_yielded_once tableNI_untouched_absent_not_yielded tableNI_yield_was_present tableNI_yield_own_lineage tableNI_yields_within tableNI_map_linearizable tableNI_iter_step_enabled tableNI_run_states_are_past_states clocks_agree".split()]), ("Flurry.Props.C07BinNIOnce2", ["Flurry.Proto.BinNI.iter_untouched_yielded_once", "Flurry.Proto.BinNI.iter_untouched_yielded_at_most_once", "Flurry.Proto.BinNI.iter_no_duplicates_of_untouched"]), ("Flurry.Props.C07BinNIOnce", ["Flurry.Proto.BinNI." + n for n in "iter_untouched_yielded iter_untouched_absent_not_yielded iter_yields_before_end iter_frames_disjoint".split()]), ("Flurry.Props.C07BinNI", ["Flurry.Proto.BinNI." + n for n in "iter_yield_was_present iter_step_enabled iter_todo_behind_markers iter_solo_terminates shared_part_reachable iterator_across_two_resizes iterator_on_frozen_list".split()]), ("Flurry.Props.C05TableG", ["Flurry.Proto.TableG.tableG_quiescent_iter_agrees", "Flurry.Proto.TableG.tableG_quiescent_keys_distinct"]), ("Flurry.Props.C01BinG", ["Flurry.Proto.BinG.binG_linearizable_quiescent", "Flurry.Proto.BinG.transfer_abs_invariant"]), ("Flurry.Props.C01BinK", ["Flurry.Proto.BinK.binK_linearizable_quiescent", "Flurry.Proto.BinK.conversion_abs_invariant"]), ("Flurry.Props.C01BinU", ["Flurry.Proto.BinU.binu_linearizable_quiescent", "Flurry.Proto.BinU.binu_f8order_not_linearizable", "Flurry.Proto.BinU.insert_locks_before_prepend"]), ("Flurry.Props.C10", ["Flurry.C10.fill_then_forward_then_retire"]), ("Flurry.Props.C07", _thms("C07", "traverse_frozen yields_each_once terminates quiescent_order"))]
-THEOREMS["C11"] = [("Flurry.Props.C11BinGN", ["Flurry.Proto.BinGNProg." + n for n in "binGN_never_stuck binGN_never_stuck_all step_disabled_only_by_lock holder_exists holders_do_not_wait resizer_between_cells_holds_no_lock parked_writer_waits_for_reader blocked_waits_for_other blocked_waits_for_enabled".split()]), ("Flurry.Props.C11TableG", ["Flurry.Proto.TableGP." + n for n in "tableG_never_stuck tableG_never_stuck_all tableG_drains tableG_every_call_returns tableG_quiet_step_decreases tableG_quiet_run_bounded tableG_no_infinite_quiet_run tableG_drain_exists busy_example".split()]), ("Flurry.Props.C01BinGN", ["Flurry.Proto.BinGN.tree_bin_rwlock", "Flurry.Proto.BinGN.lock_words_have_owners", "Flurry.Proto.BinGN.writer_excludes_tree_readers"]), ("Flurry.Props.C11BinGDrain", ["Flurry.Proto.BinG." + n for n in "binG_drains every_call_returns quiet_step_decreases nonidle_step_decreases quiet_run_bounded quiet_run_extends gmu_le_bound binG_drain_exists no_infinite_quiet_run quiescent_iff_maximal busy_drained".split()]), ("Flurry.Props.C11BinG", ["Flurry.Proto.BinG." + n for n in "binG_never_stuck binG_never_stuck_all step_disabled_only_by_lock holder_exists holders_do_not_wait parked_writer_waits_for_reader blocked_waits_for_other blocked_waits_for_enabled unblocked_step_progress writer_solo_progress thread_solo_progress not_blocked_of_lock_free waitState_spec".split()]), ("Flurry.Props.C12", _thms("C12", "find_loop_never_idles model_decision_is_source_decision")), ("Flurry.Props.C11", _thms("C11", "no_lost_wakeup writer_not_blocked_without_readers never_stuck writer_eventually_enabled parked_writer_woken writer_excludes_tree_readers accepted_stream_theorems")), ("Flurry.Proto.RwLockMonitor", ["Flurry.Proto.RwLockMonitor.accepted_is_reachable"])]
-THEOREMS["C12"] = [("Flurry.Props.C12BinGN", ["Flurry.Proto.BinGNProg." + n for n in "reader_step_enabled reader_step_frame reader_step reader_solo_terminates soloBound_eq".split()]), ("Flurry.Props.C12TableG", ["Flurry.Proto.TableGP." + n for n in "tableG_reader_step_enabled tableG_reader_step_frame tableG_reader_solo_terminates".split()]), ("Flurry.Props.C07TableNI", ["Flurry.Proto.TableNI.tableNI_iter_step_enabled"]), ("Flurry.Props.C07BinNI", ["Flurry.Proto.BinNI.iter_step_enabled", "Flurry.Proto.BinNI.iter_solo_terminates"]), ("Flurry.Props.C12BinG", ["Flurry.Proto.BinG." + n for n in "reader_step_enabled reader_step_frame reader_step reader_solo_terminates soloBound_eq midState_spec parkState_spec".split()]), ("Flurry.Props.C12", _thms("C12", "roots_in_closure roots_named reach_closed reader_lock_free roots_present reader_never_blocked tree_readers_exclude_writer find_loop_never_idles find_linear_iff_bits model_decision_is_source_decision find_searches_tree_under_read_lock find_writes_nothing_but_the_lock_word")),
+THEOREMS["C11"] = [("Flurry.Props.C11TableGN", ["Flurry.Proto.TableGNL." + n for n in "tableGN_never_stuck tableGN_never_stuck_all tableGN_active_idle_elsewhere tableGN_step_is_lineage_step".split()]), ("Flurry.Props.C11BinGN", ["Flurry.Proto.BinGNProg." + n for n in "binGN_never_stuck binGN_never_stuck_all step_disabled_only_by_lock holder_exists holders_do_not_wait resizer_between_cells_holds_no_lock parked_writer_waits_for_reader blocked_waits_for_other blocked_waits_for_enabled".split()]), ("Flurry.Props.C11TableG", ["Flurry.Proto.TableGP." + n for n in "tableG_never_stuck tableG_never_stuck_all tableG_drains tableG_every_call_returns tableG_quiet_step_decreases tableG_quiet_run_bounded tableG_no_infinite_quiet_run tableG_drain_exists busy_example".split()]), ("Flurry.Props.C01BinGN", ["Flurry.Proto.BinGN.tree_bin_rwlock", "Flurry.Proto.BinGN.lock_words_have_owners", "Flurry.Proto.BinGN.writer_excludes_tree_readers"]), ("Flurry.Props.C11BinGDrain", ["Flurry.Proto.BinG." + n for n in "binG_drains every_call_returns quiet_step_decreases nonidle_step_decreases quiet_run_bounded quiet_run_extends gmu_le_bound binG_drain_exists no_infinite_quiet_run quiescent_iff_maximal busy_drained".split()]), ("Flurry.Props.C11BinG", ["Flurry.Proto.BinG." + n for n in "binG_never_stuck binG_never_stuck_all step_disabled_only_by_lock holder_exists holders_do_not_wait parked_writer_waits_for_reader blocked_waits_for_other blocked_waits_for_enabled unblocked_step_progress writer_solo_progress thread_solo_progress not_blocked_of_lock_free waitState_spec".split()]), ("Flurry.Props.C12", _thms("C12", "find_loop_never_idles model_decision_is_source_decision")), ("Flurry.Props.C11", _thms("C11", "no_lost_wakeup writer_not_blocked_without_readers never_stuck writer_eventually_enabled parked_writer_woken writer_excludes_tree_readers accepted_stream_theorems")), ("Flurry.Proto.RwLockMonitor", ["Flurry.Proto.RwLockMonitor.accepted_is_reachable"])]
+THEOREMS["C12"] = [("Flurry.Props.C12TableGN", ["Flurry.Proto.TableGNL." + n for n in "tableGN_reader_step_enabled tableGN_reader_step_frame tableGN_reader_solo_terminates".split()]), ("Flurry.Props.C12BinGN", ["Flurry.Proto.BinGNProg." + n for n in "reader_step_enabled reader_step_frame reader_step reader_solo_terminates soloBound_eq".split()]), ("Flurry.Props.C12TableG", ["Flurry.Proto.TableGP." + n for n in "tableG_reader_step_enabled tableG_reader_step_frame tableG_reader_solo_terminates".split()]), ("Flurry.Props.C07TableNI", ["Flurry.Proto.TableNI.tableNI_iter_step_enabled"]), ("Flurry.Props.C07BinNI", ["Flurry.Proto.BinNI.iter_step_enabled", "Flurry.Proto.BinNI.iter_solo_terminates"]), ("Flurry.Props.C12BinG", ["Flurry.Proto.BinG." + n for n in "reader_step_enabled reader_step_frame reader_step reader_solo_terminates soloBound_eq midState_spec parkState_spec".split()]), ("Flurry.Props.C12", _thms("C12", "roots_in_closure roots_named reach_closed reader_lock_free roots_present reader_never_blocked tree_readers_exclude_writer find_loop_never_idles find_linear_iff_bits model_decision_is_source_decision find_searches_tree_under_read_lock find_writes_nothing_but_the_lock_word")),
                    ("Flurry.Props.C12Bins", ["Flurry.Proto.BinT.reader_step_enabled", "Flurry.Proto.BinT.reader_step_frame", "Flurry.Proto.BinT.reader_solo_terminates",
                                              "Flurry.Proto.BinX.reader_step_enabled", "Flurry.Proto.BinX.reader_step_frame", "Flurry.Proto.BinX.reader_solo_terminates"])]
 
